@@ -46,6 +46,39 @@ func Records(draft int, payload []byte, rs int) [][]byte {
 	return recs
 }
 
+// RecordsEmptyFinal is the OTHER cut draft 02 allows for a payload that is a non-zero multiple
+// of rs: all records full-sized, followed by an empty final record (draft 02 lets the final
+// record hold 0..rs octets; the repository's decoder has a branch for it, its encoder never
+// produces it). The proofs - and therefore the digest - differ from those of Records.
+func RecordsEmptyFinal(payload []byte, rs int) [][]byte {
+	return append(Records(2, payload, rs), []byte{})
+}
+
+// ProofsOf evaluates the recursive definition over an explicit list of records.
+func ProofsOf(recs [][]byte) [][]byte {
+	if len(recs) == 0 {
+		return [][]byte{digest([]byte{0x00})}
+	}
+	memo := make([][]byte, len(recs))
+	proof(recs, 0, memo)
+	return memo
+}
+
+// EncodeRecords lays out the stream for an explicit list of records.
+func EncodeRecords(draft int, recs [][]byte, rs int) (stream []byte, header string) {
+	proofs := ProofsOf(recs)
+	if len(recs) > 0 {
+		stream = be64(uint64(rs))
+		for i, rec := range recs {
+			stream = append(stream, rec...)
+			if i+1 < len(recs) {
+				stream = append(stream, proofs[i+1]...)
+			}
+		}
+	}
+	return stream, Header(draft, proofs[0])
+}
+
 func checkArgs(draft, rs int) {
 	if draft != 2 && draft != 3 {
 		panic(fmt.Sprintf("refmice: unknown draft %d", draft))
